@@ -262,7 +262,7 @@ RADIX2 = (2, 3, 6, 30, 30, 5)
 RADIX3 = (3, 3, 6, 7, 7, 5, 7, 5)
 N2 = math.prod(RADIX2)
 N3 = math.prod(RADIX3)
-QUICK_STRIDE = 16
+QUICK_STRIDE = 19  # prime: coprime to every radix, so each stratum sees all digit combinations evenly
 
 
 def _digits(idx, radix):
@@ -404,7 +404,8 @@ def random_cases(draw, ns=(3, 4, 4, 4, 2), max_size=8, msize=(1, 3)):
 
 @st.composite
 def optimize_cases(draw):
-    case = draw(random_cases(ns=(2, 2, 3, 3, 4), max_size=4, msize=(3, 5)))
+    # >= 4 rows per column keeps the degrees of freedom of the fit positive (2 clps per aligned point + 2 parameters)
+    case = draw(random_cases(ns=(2, 2, 3, 3, 4), max_size=4, msize=(4, 6)))
     case["seed"] = draw(st.integers(0, 2**32 - 1))
     case["nfev"] = 1
     return case
@@ -561,7 +562,7 @@ PROPERTY = Property(
         "subset + offset in {0,+-0.2,+-0.5}, both dataset orders; (b) 3 datasets: first axis any non-empty subset of {0,1,2}, "
         "second and third any such subset + offset in {0,+-0.2,+-0.5}, all 6 dataset orders (3 explicit x ordered pairs); each "
         "with tolerance in {0,0.1,0.2,0.5,1,1.5} and method in {nearest,backward,forward}: 162 000 + 463 050 alignments "
-        "(thorough: all; quick: every 16th inside each (order, method, tolerance) stratum, phase chosen by VERIF_SEED). "
+        "(thorough: all; quick: every 19th inside each (order, method, tolerance) stratum, phase chosen by VERIF_SEED). "
         "Weights on some datasets, label permutation, data layout, model-axis sizes 1-3 are chosen by a hash of the case index "
         "(not exhaustive). random: Hypothesis, 2-4 datasets (mostly 4), axes of 1-8 points from scaled/shifted grids with "
         "offsets, random floats, and points placed at tolerance*(1+-1e-15..1e-3) from a target. optimize: Hypothesis, 2-4 datasets, "
@@ -570,7 +571,7 @@ PROPERTY = Property(
     ),
     subs=[
         Sub("grid", prop=lambda case: prop_provider(case, "grid"), enumerate=lambda tier: GridCases(tier), exhaustive=True,
-            doc="DataProviderLinked tables vs the alignment reference model on the bounded grid (exhaustive in thorough, 1/16 stratified sample in quick)"),
+            doc="DataProviderLinked tables vs the alignment reference model on the bounded grid (exhaustive in thorough, 1/19 stratified sample in quick)"),
         Sub("random", prop=lambda case: prop_provider(case, "random"), strategy=lambda: random_cases(),
             budget={"quick": 2400, "thorough": 120000},
             doc="same oracle, 2-4 datasets with larger random axes"),
@@ -585,7 +586,7 @@ PROPERTY = Property(
         "axes strictly increasing and finite, tolerance >= 0, data free of NaN (documented caller-respected domain); neutral dataset labels dsA..dsD",
         "get_aligned_weight of a point none of whose datasets is weighted may be None or all ones",
         "optimize level: clps 'identical' = max abs difference <= 1e-10*scale, 'differ' = > 1e-6*scale (cases in between are discarded and counted); "
-        "stacked solution compared with numpy lstsq at 1e-7*scale (matrices: 2 exponentials on 3-5 points, cond < 1e3)",
+        "stacked solution compared with numpy lstsq at 1e-7*scale (matrices: 2 exponentials on 4-6 points, cond < 1e3)",
     ],
     selfcheck=selfcheck,
 )
